@@ -93,6 +93,9 @@ def main() -> int:
         sh(["git", "-C", "/repo", "worktree", "remove", "--force", str(wt)])
         shutil.rmtree(wt, ignore_errors=True)
         shutil.rmtree(f"/tmp/seedeval-evidence-{os.getpid()}", ignore_errors=True)
+        # the run above regenerated lean/OPM/Gen/*.lean from the scratch tree: put the tables of /repo back
+        env0 = {k: v for k, v in os.environ.items() if k != "PYTHONPATH"}
+        sh([PY, "-m", "vp.setup", "--tables-only"], cwd=ROOT, env=env0, timeout=600)
 
 
 if __name__ == "__main__":
